@@ -1215,7 +1215,7 @@ pub fn time_4(hour_value: &Value, minute_value: &Value, second_value: &Value, du
           let seconds = second.trunc();
           let nanoseconds = (second.fract() * FeelNumber::nano()).trunc();
           match duration_value {
-            Value::DaysAndTimeDuration(duration) => {
+            Value::DaysAndTimeDuration(duration) if (-53_999..=53_999).contains(&duration.as_seconds()) => {
               if let Some(feel_time) = FeelTime::new_hmso_opt(
                 hour.to_u8().unwrap(),
                 minute.to_u8().unwrap(),
